@@ -9,6 +9,21 @@
 //!   crash <n>        run the build in a child process that kills itself at hook point n of that run;
 //!                    answer: the durable state left behind (threads=1), or the verdict of the
 //!                    marker invariants on it (threads>1, where the interleaving is not determined)
+//!   crashw <i> <k> <js> exact|inv
+//!                    "kill when", forced order (threads > 1): the child's worker that arrives at point
+//!                    k of dataset i (its k-th HASHES write; k = #hashes: its PROCESSED marker) waits
+//!                    until the PROCESSED markers of the datasets <js> (`+`-separated) are written,
+//!                    then the process is killed: later datasets complete and marked, an earlier one
+//!                    partly written — a processed set that is NOT a prefix of the collection.
+//!                    `exact` (js = every other dataset still to do): the durable state is determined,
+//!                    answer = the durable state (`NA` if the order could not be forced in 3 attempts);
+//!                    `inv`: answer = the verdict of the marker invariants
+//!   crashn <i> <k> <js>
+//!                    the same condition without waiting (order not fixed: dies at the first point >= k
+//!                    of dataset i reached after the markers of <js>, dataset i being a slow writer;
+//!                    otherwise the run completes);
+//!                    answer: the verdict of the marker invariants
+//!   inv              the verdict of the marker invariants on the current durable state
 //!   crashc <us>      child killed <us> microseconds after compaction started; answer: durable state
 //!   resume           re-run the same build in-process to completion; answer: the full observation
 //!   resumec          the same in a fresh child process
@@ -191,6 +206,79 @@ fn gen(a: &Args) {
         if r.chance(1, 3) {
             // extend / re-run after the reopen sequence: a completed index is a fixed point
             o.op("resume");
+        }
+    }
+
+    // stream 5 (generated last: streams 1-4 are the same requests as before it existed): processed sets
+    // that are NOT a prefix of the collection.  Several worker threads; an
+    // early new dataset (often LARGE, 400-800 hashes) is held at one of its points until the later new
+    // ones (tiny) are complete and marked, then the process dies; the re-run must index the held one.
+    // (threads, max datasets): rayon hands every dataset to its own job up to 2 x threads datasets
+    let nnp = if thorough { 400 } else { 36 };
+    for i in 0..nnp {
+        let (threads, maxn) = *r.pick(&[(4usize, 8usize), (4, 8), (8, 12), (2, 4)]);
+        let nd = r.range(3, maxn as u64) as usize;
+        // at least two new datasets
+        let base = r.range(if i % 2 == 0 { 1 } else { 0 }, nd as u64 - 2) as usize;
+        let via = if i % 2 == 0 { "update" } else { "create" };
+        let mut c = rand_coll(&mut r, nd, 6, 14);
+        // the held dataset: a new one that is not the last (mostly the first new one)
+        let held = if r.chance(2, 3) { base } else { r.range(base as u64, nd as u64 - 2) as usize };
+        let big = i % 3 != 2;
+        if big {
+            let k = r.range(400, 800);
+            let mut v: Vec<u64> = (0..k).map(|_| 1 + r.below(3000)).collect();
+            v.extend(c[held].iter().copied());
+            v.sort_unstable();
+            v.dedup();
+            c[held] = v;
+        }
+        let nh = c[held].len() as u64;
+        // point of the held dataset: first / second write, somewhere inside, last write, its marker
+        let k = match r.below(6) {
+            0 => 0,
+            1 => 1.min(nh),
+            2 => nh.saturating_sub(1),
+            3 => nh,
+            _ => r.below(nh + 1),
+        };
+        let q = rand_query(&mut r, &c);
+        let others: Vec<u64> = (base..nd).filter(|d| *d != held).map(|d| d as u64).collect();
+        let plus = |v: &[u64]| -> String {
+            if v.is_empty() {
+                "-".into()
+            } else {
+                v.iter().map(|x| x.to_string()).collect::<Vec<_>>().join("+")
+            }
+        };
+        header(&mut o, &c, base, via, threads, hows[i % 3], &q, i % 4 == 0);
+        match i % 6 {
+            5 => {
+                // natural timing, no waiting
+                let later: Vec<u64> = others.iter().copied().filter(|d| *d > held as u64).collect();
+                o.op(&format!("crashn {} {} {}", held, k.min(nh / 2), plus(&later)));
+            }
+            4 => {
+                // only some of the later ones are waited for: the rest is wherever it got to
+                let later: Vec<u64> = others.iter().copied().filter(|d| *d > held as u64 && r.chance(2, 3)).collect();
+                o.op(&format!("crashw {} {} {} inv", held, k, plus(&later)));
+            }
+            _ => {
+                o.op(&format!("crashw {} {} {} exact", held, k, plus(&others)));
+                o.op("inv");
+            }
+        }
+        if r.chance(1, 4) {
+            // a second kill during the re-run (only the held dataset is left to do)
+            o.op(&format!("crash {}", r.below(nh + 5)));
+        }
+        o.op(if i % 2 == 0 { "resume" } else { "resumec" });
+        if i % 5 == 0 {
+            o.op(&format!("reopen {}", rand_seq(&mut r, 3)));
+        } else if i % 5 == 1 {
+            // internalize, then look at the internalized index through a read-only / a second handle
+            let tail = rand_seq(&mut r, 2);
+            o.op(&format!("reopen openrw,intern,close,{},intern,{}", if i % 2 == 0 { "openro" } else { "openrw" }, tail));
         }
     }
 }
@@ -443,6 +531,51 @@ fn spawn_child(st: &St, kill_at: &str, delay: Option<u64>) -> String {
     }
 }
 
+fn remove_index(st: &St) {
+    if st.idx.exists() {
+        std::fs::remove_dir_all(&st.idx).unwrap();
+    }
+}
+
+/// `crashw` / `crashn`: kill decided by what has been written (see c10_child.rs, `when:`)
+fn crash_when(st: &St, i: usize, k: u64, js: &str, block: bool, exact: bool) -> String {
+    let want: Vec<u32> = js.split('+').filter(|x| *x != "-" && !x.is_empty()).map(|x| x.parse().unwrap()).collect();
+    // the order is forced by waiting; a retry (from the state before the crash) with a longer settle
+    // time covers a marker write that had not returned when the process died
+    let snapshot = st.tmp.as_ref().unwrap().path().join("pre-crash");
+    let _ = std::fs::remove_dir_all(&snapshot);
+    let had_index = st.idx.exists();
+    if exact && had_index {
+        copy_dir(&st.idx, &snapshot);
+    }
+    let mut out = "NA".to_string();
+    for settle in [30u64, 300, 2000] {
+        let spec = format!("when:{}:{}:{}:{}:{}", i, k, js, block as u8, if block { settle } else { 200 });
+        let r = spawn_child(st, &spec, None);
+        if r.starts_with("child-failed") {
+            return r;
+        }
+        let s = scan(st);
+        let inv = invariants(st, &s);
+        if inv != "inv-ok" || !exact {
+            out = inv;
+            break;
+        }
+        let p = s.p.clone().unwrap_or_default();
+        if r == "killed" && want.iter().all(|j| p.contains(j)) && !p.contains(&(i as u32)) {
+            out = show_scan(&s);
+            break;
+        }
+        // not the state asked for: start again from the state before the crash
+        remove_index(st);
+        if had_index {
+            copy_dir(&snapshot, &st.idx);
+        }
+    }
+    let _ = std::fs::remove_dir_all(&snapshot);
+    out
+}
+
 /// the build under test, in this process (no hook callback, the process-wide rayon pool)
 fn build_in_process(st: &St) -> Result<(), String> {
     let coll = fs_collection(&st.paths);
@@ -572,6 +705,16 @@ fn step(st: &mut St, ws: &[&str]) -> String {
             } else {
                 invariants(st, &s)
             }
+        }
+        "crashw" | "crashn" => {
+            st.handle = None;
+            let block = ws[0] == "crashw";
+            let exact = block && ws.get(4) == Some(&"exact");
+            crash_when(st, ws[1].parse().unwrap(), ws[2].parse().unwrap(), ws[3], block, exact)
+        }
+        "inv" => {
+            let s = scan(st);
+            invariants(st, &s)
         }
         "resume" => {
             st.handle = None;
